@@ -102,6 +102,8 @@ func parseStr(a string) string {
 	return a
 }
 
+var retSep = regexp.MustCompile(`\)\s+= `)
+
 // ParseStrace turns a `strace -f -y -xx` log into the ordered list of mutations under root.
 func ParseStrace(path, root string) ([]Mut, error) {
 	f, err := os.Open(path)
@@ -142,13 +144,17 @@ func ParseStrace(path, root string) ([]Mut, error) {
 			delete(pending, pid)
 		}
 		op := strings.IndexByte(rest, '(')
-		eq := strings.LastIndex(rest, ") = ")
-		if op < 0 || eq < 0 {
+		// strace pads short lines ("<... write resumed>)              = 4"): any run of blanks before "= "
+		eq, eqEnd := -1, -1
+		if locs := retSep.FindAllStringIndex(rest, -1); len(locs) > 0 {
+			eq, eqEnd = locs[len(locs)-1][0], locs[len(locs)-1][1]
+		}
+		if op < 0 || eq < 0 || eq < op {
 			continue
 		}
 		name := rest[:op]
 		args := splitArgs(rest[op+1 : eq])
-		retS := strings.Fields(rest[eq+4:])
+		retS := strings.Fields(rest[eqEnd:])
 		if len(retS) == 0 {
 			continue
 		}
